@@ -28,9 +28,15 @@ GRV_CMD(gdl) {
         std::vector<uint32_t> cps; for (auto &g : (*v)["text"].a) cps.push_back(uint32_t(96 + g->num()));
         const std::vector<int> dirs = v->has("dirs") ? std::vector<int>() : std::vector<int>{rtl};
         std::vector<int> dl = dirs; if (v->has("dirs")) for (auto &d : (*v)["dirs"].a) dl.push_back(int(d->num()));
+        gr_feature_val *fv = 0;
+        if (v->has("feats") && !(*v)["feats"].a.empty()) {
+            fv = gr_face_featureval_for_lang(face, 0);
+            size_t fi = 0;
+            for (auto &x : (*v)["feats"].a) { const gr_feature_ref *fr = gr_face_fref(face, gr_uint16(fi++)); if (fr && fv) gr_fref_set_feature_value(fr, gr_uint16(x->num()), fv); }
+        }
         for (int dir : dl) {
             GRV_WATCHDOG;
-            gr_segment *seg = gr_make_seg(0, face, 0, 0, gr_utf32, cps.data(), cps.size(), dir);
+            gr_segment *seg = gr_make_seg(0, face, 0, fv, gr_utf32, cps.data(), cps.size(), dir);
             if (!seg) { ++nullsegs; if (!nocompare) { vj::W w; w.str("id", id); report_fail("C06", "gr_make_seg returned NULL for a progress-only rule program", w.done()); } continue; }
             SegP p = project(seg, face, 0, true);
             if (!p.wf.empty()) { vj::W w; w.str("id", id).i("dir", dir); if (getenv("GRV_DUMP")) w.str("got", dump_json(p)); report_fail(p.wfprop.c_str(), p.wf, w.done()); }
@@ -56,6 +62,7 @@ GRV_CMD(gdl) {
             }
             gr_seg_destroy(seg);
         }
+        if (fv) gr_featureval_destroy(fv);
         gr_face_destroy(face);
     }
     fclose(f);
